@@ -443,7 +443,7 @@ def check(pid, tier):
     findings = load_findings()["findings"]
     for f in findings:
         if f.get("property") == pid and f.get("status") == "open":
-            hit = [k for k in known_seen if k[1] == f.get("class_id")]
+            hit = [k for k in known_seen if k[1] == f.get("class_id") and (f.get("suite") is None or k[0] == f.get("suite"))]
             if hit:
                 log("KNOWN-FINDING: property=%s %s" % (pid, f["what"]))
             else:
